@@ -109,8 +109,171 @@ func run(c string) string {
 		s := parseTerms(f[1])
 		s.SortByExponent()
 		return "ok " + termsString(s)
+	case f[0] == "dhist" && len(f) == 2:
+		return runDhist(f[1]).String()
 	}
 	panic("harness: bad case " + strconv.Quote(c))
+}
+
+// ---- call histories: one process, every result kept alive, everything re-read at the end ----
+
+// dstate is the caller's view: the integers it owns and every Sum it was given.
+type dstate struct {
+	xs []*big.Int
+	ss []dict.Sum
+}
+
+// String re-reads every register: x values, then terms, Sum.Int() and Dictionary() of every sum.
+func (st *dstate) String() string {
+	var b strings.Builder
+	b.WriteString("ok " + lib.HexList(st.xs))
+	for _, s := range st.ss {
+		b.WriteString(" " + termsString(s) + " " + lib.Hex(s.Int()) + " " + lib.HexList(s.Dictionary()))
+	}
+	return b.String()
+}
+
+type dinstr struct {
+	op     string
+	m      method
+	a, b   int
+	v      *big.Int
+	fields []string
+}
+
+func parseDhist(prog string) []dinstr {
+	var out []dinstr
+	for _, ins := range strings.Split(prog, ";") {
+		f := strings.Split(ins, ":")
+		d := dinstr{op: f[0], fields: f}
+		switch {
+		case f[0] == "x" && len(f) == 2:
+			d.v = lib.ParseHex(f[1])
+		case f[0] == "dec" && len(f) >= 4:
+			d.m = parseMethod(strings.Join(f[1:len(f)-1], ":"))
+			d.a = lib.Atoi(f[len(f)-1])
+		case f[0] == "scrx" && len(f) == 3:
+			d.a, d.v = lib.Atoi(f[1]), lib.ParseHex(f[2])
+		case f[0] == "scrd" && len(f) == 4:
+			d.a, d.b, d.v = lib.Atoi(f[1]), lib.Atoi(f[2]), lib.ParseHex(f[3])
+		case (f[0] == "sort" || f[0] == "dict" || f[0] == "int") && len(f) == 2:
+			d.a = lib.Atoi(f[1])
+		default:
+			panic("harness: bad dhist instruction " + strconv.Quote(ins))
+		}
+		out = append(out, d)
+	}
+	return out
+}
+
+// runDhist executes the history against the library. Scribbles are done in place (Set on the
+// big.Int the caller owns or was handed), so anything the library shares with them is disturbed.
+func runDhist(prog string) *dstate {
+	st := &dstate{}
+	for _, d := range parseDhist(prog) {
+		switch d.op {
+		case "x":
+			st.xs = append(st.xs, new(big.Int).Set(d.v))
+		case "dec":
+			st.ss = append(st.ss, d.m.decomposer().Decompose(st.xs[d.a]))
+		case "scrx":
+			st.xs[d.a].Set(d.v)
+		case "scrd":
+			if s := st.ss[d.a]; len(s) > 0 {
+				s[d.b%len(s)].D.Set(d.v)
+			}
+		case "sort":
+			st.ss[d.a].SortByExponent()
+		case "dict":
+			_ = st.ss[d.a].Dictionary()
+		case "int":
+			_ = st.ss[d.a].Int()
+		}
+	}
+	return st
+}
+
+// refDhist is the reference: every Decompose is an isolated call on a private copy of x whose result
+// is checked against the property and deep-copied at once; scribbles replace values, nothing is shared.
+func refDhist(prog string) (string, string) {
+	var xs []*big.Int
+	var ss []dict.Sum
+	for k, d := range parseDhist(prog) {
+		switch d.op {
+		case "x":
+			xs = append(xs, new(big.Int).Set(d.v))
+		case "dec":
+			x := new(big.Int).Set(xs[d.a])
+			s := d.m.decomposer().Decompose(new(big.Int).Set(x))
+			if msg := checkTerms(d.m, x, s); msg != "" {
+				return "", fmt.Sprintf("instruction %d (%s): %s", k, strings.Join(d.fields, ":"), msg)
+			}
+			ss = append(ss, cloneSum(s))
+		case "scrx":
+			xs[d.a] = new(big.Int).Set(d.v)
+		case "scrd":
+			if s := ss[d.a]; len(s) > 0 {
+				s[d.b%len(s)] = dict.Term{D: new(big.Int).Set(d.v), E: s[d.b%len(s)].E}
+			}
+		case "sort":
+			s := ss[d.a]
+			sort.SliceStable(s, func(i, j int) bool { return s[i].E < s[j].E })
+		}
+	}
+	var b strings.Builder
+	b.WriteString("ok " + lib.HexList(xs))
+	for _, s := range ss {
+		b.WriteString(" " + termsString(s) + " " + lib.Hex(sumOf(s)) + " " + lib.HexList(distinctD(s)))
+	}
+	return b.String(), ""
+}
+
+// sharedStorage reports two distinct registers (x registers, term D of any result) that are the
+// same *big.Int or share a word array.
+func sharedStorage(st *dstate) string {
+	ptr := map[*big.Int]string{}
+	arr := map[*big.Word]string{}
+	see := func(name string, v *big.Int) string {
+		if o, ok := ptr[v]; ok {
+			return o + " and " + name + " are the same *big.Int"
+		}
+		ptr[v] = name
+		if w := v.Bits(); cap(w) > 0 {
+			w = w[:1]
+			if o, ok := arr[&w[0]]; ok {
+				return o + " and " + name + " share a word array"
+			}
+			arr[&w[0]] = name
+		}
+		return ""
+	}
+	for i, x := range st.xs {
+		if m := see(fmt.Sprintf("x%d", i), x); m != "" {
+			return m
+		}
+	}
+	for i, s := range st.ss {
+		for j, t := range s {
+			if m := see(fmt.Sprintf("sum%d.term%d.D", i, j), t.D); m != "" {
+				return m
+			}
+		}
+	}
+	return ""
+}
+
+func oracleDhist(prog, res string) string {
+	want, msg := refDhist(prog)
+	if msg != "" {
+		return msg
+	}
+	if res != want {
+		return "history differs from independent calls: got " + res + " want " + want
+	}
+	if m := sharedStorage(runDhist(prog)); m != "" {
+		return m
+	}
+	return ""
 }
 
 // ---- oracle: the property stated directly ----
@@ -153,6 +316,14 @@ func oracleDecompose(m method, x *big.Int, res string) string {
 		return "decomposition did not return normally: " + res
 	}
 	s := parseTerms(f[1])
+	if msg := checkTerms(m, x, s); msg != "" {
+		return msg
+	}
+	return checkRest(m, x, s, f)
+}
+
+// checkTerms: the decomposition clauses of the property for terms s of x under method m.
+func checkTerms(m method, x *big.Int, s dict.Sum) string {
 	// exact sum
 	if sumOf(s).Cmp(x) != 0 {
 		return fmt.Sprintf("terms sum to %s, not x", lib.Hex(sumOf(s)))
@@ -203,6 +374,11 @@ func oracleDecompose(m method, x *big.Int, res string) string {
 			}
 		}
 	}
+	return ""
+}
+
+// checkRest: Sum.Int, Dictionary, x unchanged, reproducibility.
+func checkRest(m method, x *big.Int, s dict.Sum, f []string) string {
 	// Sum.Int and Dictionary as returned
 	if lib.ParseHex(f[2]).Cmp(x) != 0 {
 		return "Sum.Int() differs from x"
@@ -251,6 +427,8 @@ func oracle(c, res string) string {
 		if res != "ok "+lib.HexList(distinctD(parseTerms(f[1]))) {
 			return "Dictionary() is not the sorted list of distinct d"
 		}
+	case "dhist":
+		return oracleDhist(f[1], res)
 	case "sortexp":
 		in := parseTerms(f[1])
 		if !strings.HasPrefix(res, "ok ") {
@@ -368,10 +546,11 @@ func randTerms(r *lib.Rand, distinctE bool) string {
 }
 
 func gen(tier string, r *lib.Rand, emit func(string)) {
-	bits, nstruct, nterms := 12, 9000, 1500
+	bits, nstruct, nterms, nhist := 12, 9000, 1500, 4000
 	if tier == "thorough" {
-		bits, nstruct, nterms = 14, 150000, 20000
+		bits, nstruct, nterms, nhist = 14, 150000, 20000, 60000
 	}
+
 	// (a) exhaustive small scope: every x below 2^bits, K in 1..6, T in 0..6, all four methods
 	small := methods([]int{1, 2, 3, 4, 5, 6}, []int{0, 1, 2, 3, 4, 5, 6})
 	for x := 0; x < 1<<uint(bits); x++ {
@@ -438,8 +617,210 @@ func gen(tier string, r *lib.Rand, emit func(string)) {
 		emit("dictionary " + ts)
 		emit("sortexp " + randTerms(r, true))
 	}
+	// (d) call histories: the only stream that sees state carried across calls in one process
+	genHistories(r, nhist, emit)
+}
+
+// genHistories emits call histories: several x registers, several Decompose calls over several
+// methods, caller scribbles in between, repeated SortByExponent / Dictionary / Int calls.
+func genHistories(r *lib.Rand, n int, emit func(string)) {
+	// fixed programs aimed at shared or cached values: equal runs / windows in several results,
+	// scribble on one, decompose again
+	for _, m := range []string{"runlength:4", "runlength:0", "hybrid:2:4", "hybrid:1:0", "sliding:3", "fixed:4"} {
+		for _, x := range []string{"ff", "f0f0f", "efb7", "ffffffffffffffffffff", "7"} {
+			emit(fmt.Sprintf("dhist x:%s;dec:%s:0;dec:%s:0;scrd:0:0:5a5a;scrd:0:1:0;dec:%s:0;scrx:0:1;dict:1;sort:1;dec:%s:0;int:2", x, m, m, m, m))
+			emit(fmt.Sprintf("dhist x:%s;x:%s;dec:%s:0;scrx:0:2;dec:%s:1;scrd:1:0:1234567;dec:%s:0;dict:0;dict:0;sort:0", x, x, m, m, m))
+		}
+	}
+	randMethod := func() string {
+		k, t := r.Range(1, 6), r.Range(0, 6)
+		if r.Chance(1, 8) {
+			k, t = r.Range(1, 40), r.Range(0, 40)
+		}
+		switch r.Intn(5) {
+		case 0:
+			return fmt.Sprintf("fixed:%d", k)
+		case 1:
+			return fmt.Sprintf("sliding:%d", k)
+		case 2:
+			return fmt.Sprintf("runlength:%d", t)
+		default:
+			return fmt.Sprintf("hybrid:%d:%d", k, t)
+		}
+	}
+	randX := func() *big.Int {
+		switch r.Intn(6) {
+		case 0:
+			return structured(r, r.Range(1, 6), r.Range(0, 6), 200)
+		case 1:
+			x := new(big.Int).Lsh(big.NewInt(1), uint(r.Range(1, 130)))
+			return x.Sub(x, big.NewInt(1))
+		case 2:
+			return r.BitsExact(r.Range(1, 130))
+		default:
+			return r.BitsExact(r.Range(1, 16))
+		}
+	}
+	for i := 0; i < n; i++ {
+		nx, ns := 0, 0
+		var prog []string
+		addX := func() {
+			prog = append(prog, "x:"+lib.Hex(randX()))
+			nx++
+		}
+		addX()
+		if r.Bool() {
+			addX()
+		}
+		last := randMethod()
+		steps := r.Range(4, 12)
+		for k := 0; k < steps; k++ {
+			c := r.Intn(12)
+			switch {
+			case c < 5 || ns == 0:
+				if !r.Chance(1, 2) {
+					last = randMethod()
+				}
+				prog = append(prog, fmt.Sprintf("dec:%s:%d", last, r.Intn(nx)))
+				ns++
+			case c < 7:
+				prog = append(prog, fmt.Sprintf("scrx:%d:%s", r.Intn(nx), lib.Hex(randX())))
+			case c < 9:
+				v := r.Bits(r.Range(0, 70))
+				prog = append(prog, fmt.Sprintf("scrd:%d:%d:%s", r.Intn(ns), r.Intn(8), lib.Hex(v)))
+			case c == 9:
+				prog = append(prog, fmt.Sprintf("sort:%d", r.Intn(ns)))
+			case c == 10:
+				prog = append(prog, fmt.Sprintf("dict:%d", r.Intn(ns)))
+			default:
+				if r.Bool() && nx < 4 {
+					addX()
+				} else {
+					prog = append(prog, fmt.Sprintf("int:%d", r.Intn(ns)))
+				}
+			}
+		}
+		// always end with a fresh call on every x and a scribble on the first result
+		prog = append(prog, fmt.Sprintf("scrd:0:%d:%s", r.Intn(4), lib.Hex(r.Bits(40))))
+		prog = append(prog, fmt.Sprintf("dec:%s:%d", last, r.Intn(nx)))
+		emit("dhist " + strings.Join(prog, ";"))
+	}
+}
+
+// perturbX: x with a bit flipped, a run lengthened, or shifted.
+func perturbX(x *big.Int, r *lib.Rand) *big.Int {
+	y := new(big.Int).Set(x)
+	n := y.BitLen()
+	switch r.Intn(5) {
+	case 0, 1: // flip a bit (possibly just above the top)
+		i := r.Intn(n + 2)
+		y.SetBit(y, i, y.Bit(i)^1)
+	case 2: // lengthen a run: set the zero bit just above or below some set bit
+		if n > 0 {
+			i := r.Intn(n)
+			for i < n && y.Bit(i) == 0 {
+				i++
+			}
+			if r.Bool() {
+				for y.Bit(i) == 1 {
+					i++
+				}
+				y.SetBit(y, i, 1)
+			} else {
+				for i >= 0 && y.Bit(i) == 1 {
+					i--
+				}
+				if i >= 0 {
+					y.SetBit(y, i, 1)
+				}
+			}
+		}
+	case 3:
+		y.Lsh(y, uint(r.Range(1, 3)))
+	default:
+		y.Rsh(y, uint(r.Range(1, 3)))
+	}
+	if y.Sign() == 0 {
+		y.SetInt64(1)
+	}
+	return y
+}
+
+func perturbMethod(m string, r *lib.Rand) string {
+	f := strings.Split(m, ":")
+	i := 1 + r.Intn(len(f)-1)
+	v := lib.Atoi(f[i]) + []int{-1, 1}[r.Intn(2)]
+	min := 1
+	if f[0] == "runlength" || (f[0] == "hybrid" && i == 2) {
+		min = 0
+	}
+	if v < min {
+		v = min + 1
+	}
+	f[i] = strconv.Itoa(v)
+	return strings.Join(f, ":")
+}
+
+// neighbours: same function, perturbed input (x bit flipped / run lengthened / shifted; K, T +-1).
+func neighbours(c string, r *lib.Rand, emit func(string)) {
+	f := strings.Split(c, " ")
+	switch f[0] {
+	case "decompose":
+		x := lib.ParseHex(f[2])
+		for k := 0; k < 24; k++ {
+			m, y := f[1], x
+			if r.Chance(1, 3) {
+				m = perturbMethod(m, r)
+			}
+			if m == f[1] || r.Bool() {
+				y = perturbX(x, r)
+			}
+			emit("decompose " + m + " " + lib.Hex(y))
+		}
+	case "dhist":
+		ins := strings.Split(f[1], ";")
+		for k := 0; k < 12; k++ {
+			out := append([]string{}, ins...)
+			for tries := 0; tries < 3; tries++ {
+				i := r.Intn(len(out))
+				g := strings.Split(out[i], ":")
+				switch g[0] {
+				case "x":
+					out[i] = "x:" + lib.Hex(perturbX(lib.ParseHex(g[1]), r))
+				case "scrx":
+					out[i] = "scrx:" + g[1] + ":" + lib.Hex(perturbX(lib.ParseHex(g[2]), r))
+				case "dec":
+					out[i] = "dec:" + perturbMethod(strings.Join(g[1:len(g)-1], ":"), r) + ":" + g[len(g)-1]
+				case "scrd":
+					out[i] = fmt.Sprintf("scrd:%s:%d:%s", g[1], r.Intn(6), lib.Hex(r.Bits(r.Range(0, 70))))
+				}
+			}
+			emit("dhist " + strings.Join(out, ";"))
+		}
+		// the single calls of the history on their own
+		xs := []string{}
+		for _, i := range ins {
+			g := strings.Split(i, ":")
+			if g[0] == "x" {
+				xs = append(xs, g[1])
+			} else if g[0] == "dec" {
+				emit("decompose " + strings.Join(g[1:len(g)-1], ":") + " " + xs[lib.Atoi(g[len(g)-1])%len(xs)])
+			}
+		}
+	case "sumint", "dictionary", "sortexp":
+		s := parseTerms(f[1])
+		for k := 0; k < 8 && len(s) > 0; k++ {
+			t := cloneSum(s)
+			i := r.Intn(len(t))
+			t[i].D = perturbX(t[i].D, r)
+			if f[0] != "sortexp" && r.Bool() {
+				t[i].E = uint(r.Intn(40))
+			}
+			emit(f[0] + " " + termsString(t))
+		}
+	}
 }
 
 func main() {
-	lib.Main(lib.Prop{ID: "C09", Gen: gen, Run: run, Oracle: oracle, Nontrivial: nontrivial})
+	lib.Main(lib.Prop{ID: "C09", Gen: gen, Run: run, Oracle: oracle, Nontrivial: nontrivial, Neighbours: neighbours})
 }
